@@ -22,6 +22,7 @@ func init() {
 	reg("C20", "C20.R3", "E2", "antispam gating in In and the constant verdicts inside IsSpam", 1, ruleAntispamGating)
 	reg("C20", "C20.R5", "E7", "antispam exceptions use match rules: a value is rejected by length only when shorter than the shortest configured value (same rule as C17.R5)", 2, ruleMatchRuleLengthGate)
 	reg("C20", "C20.R6", "E2", "antispam exceptions use match rules: event data is lower-cased whenever the rule is case-insensitive (same rule as C17.R6)", 2, ruleMatchRuleCaseFold)
+	reg("C20", "C20.R7", "E2", "the antispam maintenance loop is started unconditionally by Pipeline.Start and runs until the pipeline stops", 1, ruleAntispamMaintenanceRuns)
 }
 
 // reasonOf classifies a guard literal of In/streamEvent into a refusal reason.
@@ -717,4 +718,67 @@ func (c *Ctx) firstMatchingRuleDecides(r *Rule, isSpam *ssa.Function) {
 		pos = at.Pos()
 	}
 	r.Ob(!back, c.fnName(isSpam)+"|first-match-leaves-loop", pos, "after a rule's condition held, the loop over the rules is left (the first matching rule decides; a path back to the next rule lets a later rule override it)")
+}
+
+// ruleAntispamMaintenanceRuns: the per-source counters decay and bans are lifted only by
+// Antispammer.Maintenance. Whenever the pipeline consults the antispam at all, the loop that calls it
+// must be running: Pipeline.Start starts it unconditionally (a start guarded by some threshold test
+// leaves valid configurations — common threshold 0 with per-rule thresholds — with counters that
+// never decay: a slow source is banned in the end and never unbanned).
+func ruleAntispamMaintenanceRuns(c *Ctx, r *Rule) {
+	maint := c.Method("pipeline/antispam", "Antispammer", "Maintenance")
+	start := c.Method("pipeline", "Pipeline", "Start")
+	if maint == nil || start == nil {
+		r.Unresolved("Antispammer.Maintenance / Pipeline.Start")
+		return
+	}
+	// the loop function: a Pipeline method that calls Maintenance in a cycle
+	var loop *ssa.Function
+	for _, cs := range c.sitesOf(maint) {
+		fn := cs.Parent()
+		if cyc, _ := c.pathExists(fn, cs, func(in ssa.Instruction) bool { return in == ssa.Instruction(cs) }, nil); cyc && c.pkgOf(fn) == "pipeline" {
+			loop = fn
+		}
+	}
+	r.Inst(1)
+	r.Ob(loop != nil, "antispam|maintenance-loop", maint.Pos(), "a pipeline function calls Antispammer.Maintenance periodically")
+	if loop == nil {
+		return
+	}
+	var goSite *ssa.Go
+	for _, b := range start.Blocks {
+		for _, in := range b.Instrs {
+			if g, ok := in.(*ssa.Go); ok && g.Call.StaticCallee() == loop {
+				goSite = g
+			}
+		}
+	}
+	if goSite == nil {
+		r.Ob(false, c.fnName(start)+"|starts-antispam-maintenance", start.Pos(), "Pipeline.Start starts the antispam maintenance loop")
+		return
+	}
+	// ... whatever the antispam settings are (the other conditions on the way — input and output present,
+	// the processor loop finished — hold for every pipeline that starts at all)
+	cond := ""
+	for _, cl := range c.guards(start)[goSite.Block()] {
+		for _, l := range cl {
+			if s := c.litString(l); strings.Contains(s, "Antispam") || strings.Contains(s, "antispam") {
+				cond = s
+			}
+		}
+	}
+	r.Ob(cond == "", c.fnName(start)+"|starts-antispam-maintenance", goSite.Pos(), "Pipeline.Start starts the antispam maintenance loop whatever the antispam settings are"+ifs(cond != "", "; it is started only under "+cond))
+	// the loop ends only when the pipeline stops
+	for i, ret := range returnsOf(loop) {
+		okStop := false
+		for _, l := range c.unitGuards(ret) {
+			if call, ok := l.v.(*ssa.Call); ok && l.pol && atomicOpOn(call, "Load", "Pipeline", "shouldStop") {
+				okStop = true
+			}
+			if l.pol && isLoadOfField(l.v, pipelinePkg, "Pipeline", "shouldStop") {
+				okStop = true
+			}
+		}
+		r.Ob(okStop, fmt.Sprintf("%s|ends-only-on-stop#%d", c.fnName(loop), i), ret.Pos(), "the antispam maintenance loop returns only when the pipeline is stopping")
+	}
 }
